@@ -15,7 +15,8 @@
 (***************************************************************************)
 EXTENDS Gates, Json
 
-CONSTANTS Cases        \* sequence of gate cases (records, see Gates)
+CONSTANTS Cases,       \* sequence of gate cases (records, see Gates)
+          Sel          \* indices of the cases to run ({} = all)
 
 VARIABLES g,           \* the gate case
           ch,          \* choices made so far: constants, then hash elements, then inputs
@@ -44,28 +45,38 @@ Coset(bits, maxdeg, dom) ==
 Poseidon(w, hf, np, blk, alpha, dom) ==
   [kind |-> "poseidon", w |-> w, hf |-> hf, np |-> np, blk |-> blk, alpha |-> alpha, dom |-> dom, cdom |-> "full"]
 
-\* P = 17: the base-field gates, exhaustive over all wires
+\* ---- quick tier -----------------------------------------------------------------------
+\* P = 17 (GEN 3, ALPHA 3): the base-field gates, exhaustive over all wires
 Cases17 == <<Arith(1, "full", "small"), BaseSum(2, 1), BaseSum(2, 2), BaseSum(2, 3), BaseSum(2, 4),
              BaseSum(3, 1), BaseSum(3, 2), BaseSum(4, 1), BaseSum(4, 2), Constant(1), Constant(2),
              Expo(1), Expo(2), Expo(3), Expo(4), Ra(1, 1, 0, "full", "full"), Ra(1, 1, 1, "full", "small"),
              Ra(1, 2, 0, "small", "full"), Ra(2, 1, 0, "small", "full"), Noop, Lookup(2), LookupTable(2),
              MulExt(1, "small", "small"), Reducing(1, "small"), Coset(1, 2, "small")>>
-\* P = 5: the extension-field gates, exhaustive over all wires
-Cases5 == <<Expo(1), Expo(2), Expo(3), Arith(2, "full", "small"), ArithExt(1, "full", "small"), MulExt(1, "full", "full"),
-            MulExt(2, "small", "small"), Ra(2, 1, 0, "full", "full"), Ra(1, 2, 1, "full", "small"),
-            Ra(2, 2, 2, "small", "small"), Reducing(1, "full"), Reducing(2, "full"), Reducing(3, "small"),
-            ReducingExt(1, "full"), ReducingExt(2, "small"), MdsG(3, "full"), MdsG(4, "small"), Pi,
-            Coset(1, 2, "full"), Coset(2, 2, "small"), Coset(2, 3, "small"), Coset(2, 4, "small"),
-            Poseidon(4, 2, 2, 1, ALPHA, "full"), Poseidon(3, 1, 1, 1, ALPHA, "full"), Constant(3)>>
-\* thorough additions
-Cases5T == <<ArithExt(1, "full", "full"), ArithExt(2, "small", "small"), ReducingExt(2, "full"), MdsG(4, "full"),
-             Reducing(3, "full"), Poseidon(4, 2, 2, 2, ALPHA, "full"), Poseidon(4, 3, 3, 1, ALPHA, "small")>>
+\* P = 5 (GEN 2, ALPHA 3): extension-field gates and joint uniqueness
+Cases5 == <<Expo(1), Expo(2), Expo(3), Arith(2, "small", "small"), ArithExt(1, "small", "small"),
+            MulExt(1, "full", "full"), Ra(2, 1, 0, "full", "full"), Ra(1, 2, 1, "small", "small"),
+            Reducing(1, "full"), Reducing(2, "small"), ReducingExt(1, "small"), ReducingExt(2, "tiny"),
+            MdsG(3, "small"), MdsG(4, "tiny"), Pi, Constant(3), BaseSum(2, 2), BaseSum(4, 1),
+            Coset(1, 2, "small"), Poseidon(3, 1, 1, 1, ALPHA, "full")>>
+\* P = 5: the two expensive twins
+Cases5H == <<Coset(2, 2, "tiny"), Coset(2, 4, "tiny"), Poseidon(4, 2, 2, 1, ALPHA, "small")>>
+\* ---- thorough tier additions ---------------------------------------------------------
+Cases5T == <<ArithExt(1, "full", "small"), Arith(2, "full", "small"), MulExt(2, "small", "small"),
+             Ra(1, 2, 1, "full", "small"), Ra(2, 2, 1, "tiny", "small"), Reducing(2, "full"), Reducing(3, "small"),
+             ReducingExt(1, "full"), ReducingExt(2, "small"), MdsG(3, "full"), MdsG(4, "small"),
+             Coset(1, 2, "full"), Coset(2, 3, "tiny"), Poseidon(4, 2, 2, 1, ALPHA, "full"),
+             Poseidon(4, 2, 2, 2, ALPHA, "small"), Poseidon(4, 3, 3, 1, ALPHA, "small")>>
+\* P = 7 (GEN 3, ALPHA 5; 7 mod 7 = 0, so no extension-field gates here)
 Cases7T == <<Ra(2, 1, 0, "full", "full"), Ra(1, 2, 0, "full", "full"), Ra(1, 1, 2, "full", "full"),
-             Poseidon(4, 2, 2, 1, ALPHA, "full"), Arith(1, "full", "full"), Pi, Expo(5)>>
-Cases13T == <<MulExt(1, "full", "small"), Reducing(1, "full"), Coset(1, 2, "full"), Coset(2, 2, "small"),
-              Coset(2, 3, "small"), Coset(2, 4, "small"), Arith(1, "full", "full"), BaseSum(3, 2), BaseSum(2, 3)>>
-Cases17T == <<Arith(1, "full", "full"), Ra(2, 1, 0, "full", "small"), Pi, Coset(3, 8, "small"), Coset(3, 3, "small"),
-              Coset(2, 3, "small"), Poseidon(4, 2, 2, 1, ALPHA, "small"), MdsG(4, "small"), Expo(6)>>
+             Poseidon(4, 2, 2, 1, ALPHA, "small"), Poseidon(3, 1, 1, 1, ALPHA, "full"), Arith(1, "full", "full"),
+             Pi, Expo(5), BaseSum(2, 2), Constant(2)>>
+\* P = 13 (GEN 2, ALPHA 5)
+Cases13T == <<MulExt(1, "small", "full"), Arith(1, "full", "small"), BaseSum(3, 2), BaseSum(2, 3),
+              Coset(1, 2, "small"), Coset(2, 4, "tiny"), Expo(3), Ra(3, 1, 0, "tiny", "full"),
+              Reducing(2, "small"), ReducingExt(1, "small")>>
+\* P = 17
+Cases17T == <<Ra(2, 1, 0, "full", "full"), Pi, Coset(2, 3, "tiny"), Poseidon(4, 2, 2, 1, ALPHA, "small"),
+              MdsG(4, "tiny"), Expo(6), Ra(3, 1, 0, "tiny", "full"), ArithExt(1, "small", "small")>>
 \* canary case lists (small, so that the mutant is found fast)
 CasesExpo == <<Expo(3)>>
 CasesRa == <<Ra(2, 1, 0, "small", "full")>>
@@ -89,12 +100,12 @@ NChoices(x) == NC(x) + NH(x) + Len(InputSpec(x))
 
 DomOf(x, s) ==
   CASE s.dom = "bool" -> {0, 1}
-    [] s.dom = "nz" -> IF x.dom = "small" THEN {1, 3 % P, P - 1} ELSE F \ {0}
+    [] s.dom = "nz" -> IF x.dom = "full" THEN F \ {0} ELSE {1, 3 % P, P - 1}
     [] s.dom = "lt" -> 0..((IF s.n < P THEN s.n ELSE P) - 1)
-    [] OTHER -> IF x.dom = "small" THEN Small ELSE F
+    [] OTHER -> IF x.dom = "small" THEN Small ELSE IF x.dom = "tiny" THEN Tiny ELSE F
 ChoiceDom(x, k) ==
   IF k <= NC(x) THEN (IF x.cdom = "small" THEN Small \cup {2 % P} ELSE F)
-  ELSE IF k <= NC(x) + NH(x) THEN (IF x.dom = "small" THEN Small ELSE F)
+  ELSE IF k <= NC(x) + NH(x) THEN (IF x.dom = "full" THEN F ELSE Small)
   ELSE DomOf(x, InputSpec(x)[k - NC(x) - NH(x)])
 
 ConstsOf(x, c) == SubSeq(c, 1, NC(x))
@@ -102,7 +113,8 @@ HashOf(x, c) == SubSeq(c, NC(x) + 1, NC(x) + NH(x))
 InputsOf(x, c) == SubSeq(c, NC(x) + NH(x) + 1, Len(c))
 RowOf(x, c) == GenRow(x, ConstsOf(x, c), HashOf(x, c), InputsOf(x, c))
 
-InitRows == /\ g \in SeqSet(Cases)
+Selected == IF Sel = {} THEN SeqSet(Cases) ELSE {Cases[i] : i \in Sel \cap (1..Len(Cases))}
+InitRows == /\ g \in Selected
             /\ ch = <<>>
             /\ row = IF NChoices(g) = 0 THEN RowOf(g, <<>>) ELSE <<>>
 NextRows == /\ Len(ch) < NChoices(g)
@@ -124,7 +136,7 @@ UniqueInv == (Done /\ Len(Pinned(g)) <= UniqMax) => G2s(g, ConstsOf(g, ch), Hash
 \* lines: offsets and directions are affine patterns in the wire index with parameters a, b
 Pattern(n, a, b) == MapN(LAMBDA i : (a * i * i + b * i + a + 2 * b) % P, n)
 LineParams == {<<1, 2>>, <<3, 5>>, <<6, 1>>, <<2, 7>>}
-InitDeg == /\ g \in SeqSet(Cases)
+InitDeg == /\ g \in Selected
            /\ ch \in LineParams
            /\ row = <<>>
 NextDeg == FALSE /\ UNCHANGED vars
